@@ -31,6 +31,13 @@ func (x *executor) setResult(fr *frame, res ssa.Value, rs []Val) {
 	if res == nil {
 		return
 	}
+	if x.curState != nil {
+		for i := range rs {
+			if rs[i].t != nil {
+				rs[i].t = x.nameIfBig(x.curState, res.Name(), rs[i].t)
+			}
+		}
+	}
 	if len(rs) == 1 {
 		fr.env[res] = rs[0]
 	} else if len(rs) > 1 {
@@ -319,7 +326,9 @@ func (x *executor) applyContract(m *machine, fr *frame, in ssa.Instruction, res 
 		}
 		ev2.vars[fmt.Sprintf("res%d", i)] = rs[i]
 		if i == sig.Results().Len()-1 && types.Identical(r.Type(), types.Universe.Lookup("error").Type()) && r.Name() == "" {
-			ev2.vars["err"] = rs[i]
+			if _, isParam := vars["err"]; !isParam {
+				ev2.vars["err"] = rs[i]
+			}
 		}
 	}
 	for i, rn := range fc.results {
